@@ -4,6 +4,10 @@ use crate::*;
 pub const BIGINT_MAX_BITS: u64 = 8 * 100_000_000;
 
 
+/// Largest supported size of the assembled output (512 MiB).
+pub const OUTPUT_MAX_BITS: u64 = 1 << 32;
+
+
 #[cfg(hlorenzi_customasm_verif)]
 impl BigInt
 {
